@@ -318,6 +318,7 @@ def thread_configs(rng, tier):
         ("ct-instance", {"kind": "ct", "progs": [A, B]}, 1 if q else 2),
         # timed items: a timed wait on a shared trampoline is woken early by another thread's schedule (notify)
         ("shared-timed", {"kind": "shared", "progs": [[["rel", 1, 10, []]], [["tick", 3], ["sched", 11, []]]]}, 1 if q else 2),
+        ("shared-timed-late", {"kind": "shared", "progs": [[["rel", 1, 10, []]], [["tick", 3], ["rel", 11, 20, []]]]}, 1 if q else 2),
         ("ct-timed", {"kind": "cts", "progs": [[["rel", 1, 10, [["sched", 2, []]]]], [["tick", 4], ["rel", 11, 3, []]]]}, 1 if q else 2),
         ("ct-singleton", {"kind": "cts", "progs": [[["sched", 1, [["sched", 2, []]]]], [["sched", 11, [["sched", 12, []], ["cancel", 12]]]]]}, 1 if q else 2),
     ]
